@@ -6,6 +6,7 @@ pub struct G {
     pub held: Seq<HeldAbs>,                            // HTLCs held (unanswered) in this entry
     pub ever_ready_sent: bool,
     pub via_listener: bool,
+    pub listener_value: Option<messages::HtlcAcceptedResponse>,   // what that receiver yielded
     pub incoming: u64,                                 // amount of the HTLC handle_htlc is about to add (input-validity bound below)                            // handle_htlc's answer was taken from its own oneshot receiver
 }
 pub open spec fn sum_held(s: Seq<HeldAbs>) -> int decreases s.len() {
